@@ -101,6 +101,9 @@ SHAPES = [
     S(79, 'v', 'SFORBID_V', 'W1'),
     S(80, 'v', 'SREQ_V',   ''),
     S(81, 'v', 'SFORBID_V', ''),
+    S(82, 'f', 'SFORBID',  '',     pm='any'),     # plain (scoped) forms with a macro inside the call expression
+    S(83, 'f', 'SREQ',     'RT R', pm='any'),
+    S(84, 'f', 'SALLOW',   'R',    pm='any'),
     # ---- a side effect that assigns to its parameter (MS1): later observers of the call (trace record, RETURN) see what?
     S(90, 'f', 'REQ',    'MS1 RT R'),
     S(91, 'v', 'ALLOW',  'MS1 S2'),
@@ -123,11 +126,15 @@ SHAPES = [
     S(123, 'f', 'REQ',    'RTAM R'),
     S(124, 'f', 'REQ',    'RT1 Q1 R'),
     S(125, 'v', 'REQ',    'RTAM Q1', pm='wild'),
+    # ---- a macro inside the call expression (ANY(int)): the expectation's text must stay as written, in every macro family
+    S(126, 'f', 'FORBID', '',        pm='any'),
+    S(127, 'f', 'REQ',    'RT R',    pm='any'),
 ]
 WATCHED_IDS = {110, 111, 112}
 RTFORM_IDS = set(range(120, 126))
+ANYFORM_IDS = {126, 127}
 NONMOVABLE_IDS = set(range(100, 106))
-SCOPED_IDS = set(range(70, 82)) | {105}
+SCOPED_IDS = set(range(70, 85)) | {105}
 
 BY_ID = {s['id']: s for s in SHAPES}
 
